@@ -10,9 +10,9 @@ from hypothesis import strategies as st
 
 ID = 'C16'
 RULE = ('(a) exhaustive: every table of 1..3 (quick) / 1..4 (thorough) rows over the 8 possible rows, in presentation '
-        'variants (geo column/index, int/str IDs, int/float/bool cells, extra column, value columns in any order, non-default row labels when geo is a column), each accepted table queried with '
+        'variants (geo column/index, int/str IDs, int/float/bool and pandas-nullable Int64/boolean/Float64 cells, extra column, value columns in any order, non-default row labels when geo is a column), each accepted table queried with '
         'every non-empty ordered subset of its geos x indices in {False, True} and with None; every single malformed '
-        'mutation (column dropped, geo absent, duplicate ID incl. 1 vs "1", cell in {2,-1,0.5,NaN,None,"1"}, duplicated '
+        'mutation (column dropped, geo absent, duplicate ID incl. 1 vs "1", cell in {2,-1,0.5,NaN,None,"1",<NA> in a nullable column}, duplicated '
         'value column) of a legal table; (b) Hypothesis: tables up to 10 rows with drawn subsets and mutations. '
         'Non-trivial = accepted table with >=2 distinct row types and >=3 rows (so proper reordered subsets exist) or a '
         'table carrying a malformed mutation or an all-zero row; distinct by spec hash.')
@@ -29,8 +29,9 @@ CLASS_OF = {(1, 0, 0): 'c_fixed', (0, 1, 0): 't_fixed', (0, 0, 1): 'x_fixed', (1
 SEVEN = ['c_fixed', 't_fixed', 'x_fixed', 'ct', 'cx', 'ctx', 'tx']
 ID_POOL = ['10', '2', '33', '4', '105', '6', '77', '8', '9', '1']   # string order != numeric order
 NAME_POOL = ['b', 'a', 'geo z', 'C', '10', 'x1', 'NY', '2', 'la', 'q']
-VARIANTS = [(g, d, c) for g in ('column', 'index') for d in ('str', 'int') for c in ('int', 'float', 'bool')]
-CELL_BAD = ['2', '-1', '0.5', 'nan', 'none', 'str1']
+VARIANTS = [(g, d, c) for g in ('column', 'index') for d in ('str', 'int') for c in ('int', 'float', 'bool')] + \
+    [('column', 'str', 'Int64'), ('index', 'int', 'boolean'), ('column', 'int', 'Float64')]
+CELL_BAD = ['2', '-1', '0.5', 'nan', 'none', 'str1', 'NA-Int64', 'NA-boolean', 'NA-Float64']
 VALUE_COLS = ['control', 'treatment', 'exclude']
 
 
@@ -65,7 +66,7 @@ def enumerate_cases(tier):
       rows = [[ID_POOL[i]] + list(ROWS8[r]) for i, r in zip(range(n), combo)]
       for j, m in enumerate(_mutations(n)):
         g, d, c = VARIANTS[(j + sum(combo)) % len(VARIANTS)]
-        if m['kind'] == 'cell' and c == 'bool':
+        if m['kind'] == 'cell' and c in ('bool', 'Int64', 'boolean', 'Float64'):
           c = 'int'
         yield {'rows': rows, 'geo_as': g, 'id_dtype': d, 'cell': c, 'extra_col': False, 'mut': m, 'subsets': 'all'}
 
@@ -82,8 +83,8 @@ def _spec(draw):
   if draw(st.integers(0, 4)) == 0:
     muts = _mutations(n)
     mut = muts[draw(st.integers(0, len(muts) - 1))]
-  cell = draw(st.sampled_from(['int', 'float', 'bool']))
-  if mut is not None and mut['kind'] == 'cell' and cell == 'bool':
+  cell = draw(st.sampled_from(['int', 'float', 'bool', 'Int64', 'boolean', 'Float64']))
+  if mut is not None and mut['kind'] == 'cell' and cell in ('bool', 'Int64', 'boolean', 'Float64'):
     cell = 'int'
   subsets = []
   for _ in range(draw(st.integers(1, 4))):
@@ -108,7 +109,7 @@ def build_frame(spec):
   ids = [r[0] for r in rows]
   if spec['id_dtype'] == 'int' and all(i.isdigit() for i in ids):
     ids = [int(i) for i in ids]
-  conv = {'int': int, 'float': float, 'bool': bool}[spec['cell']]
+  conv = {'int': int, 'float': float, 'bool': bool, 'Int64': int, 'boolean': bool, 'Float64': float}[spec['cell']]
   cols = {'geo': list(ids)}
   for j, c in enumerate(VALUE_COLS):
     cols[c] = [conv(r[1 + j]) for r in rows]
@@ -120,8 +121,14 @@ def build_frame(spec):
       v = ids2[mut['i']]
       ids2[mut['j']] = str(v) if not isinstance(v, str) else (int(v) if v.isdigit() else v)
     cols['geo'] = ids2
+  nullable = {}
   if mut and mut['kind'] == 'cell':
-    val = {'2': 2, '-1': -1, '0.5': 0.5, 'nan': float('nan'), 'none': None, 'str1': '1'}[mut['val']]
+    if mut['val'].startswith('NA-'):
+      # a missing code in a pandas nullable (extension dtype) column
+      val = pd.NA
+      nullable[mut['col']] = mut['val'][3:]
+    else:
+      val = {'2': 2, '-1': -1, '0.5': 0.5, 'nan': float('nan'), 'none': None, 'str1': '1'}[mut['val']]
     lst = list(cols[mut['col']])
     lst[mut['i']] = val
     cols[mut['col']] = lst
@@ -129,6 +136,12 @@ def build_frame(spec):
                                                        and any(isinstance(x, str) or x is None for x in v)
                                                        and any(not isinstance(x, str) for x in v)) else v
                      for k, v in cols.items()})
+  for col, dt in nullable.items():
+    df[col] = pd.array([(None if v is pd.NA else (bool(v) if dt == 'boolean' else v)) for v in cols[col]], dtype=dt)
+  if spec['cell'] in ('Int64', 'boolean', 'Float64'):
+    for col in VALUE_COLS:
+      if col in df.columns and col not in nullable and not (mut and mut['kind'] == 'cell' and mut['col'] == col):
+        df[col] = pd.array(list(df[col]), dtype=spec['cell'])
   if spec.get('extra_col'):
     df['note'] = 'n'
   if spec.get('col_order'):
